@@ -189,8 +189,8 @@ Print Assumptions C11_sync_machine_catches_up.
    about the synchronisation state: empty download queue and buffer, and the best announcement heard so far is at most
    the peer's (false in livelock 2); the counters n / forkWait / SyncLastRequestHeight are arbitrary.
    Schedule (fairness): rounds keep being scheduled; in every round the peer's STATS have arrived, Synchronize runs one
-   iteration, the peer answers every request of it, the answers arrive in the order sent, the post-processor drains its
-   buffer.
+   iteration, the peer answers every request of it, the answers arrive - in the order sent ([srounds]) or in any order
+   ([prounds]) - and the post-processor drains its buffer.
    Then there is a number of rounds after which, for every clock reading at which the peer's blocks (other than genesis)
    pass prevalidation: the node is exactly the node that received [theirs] block by block, its store holds every block of
    the peer's main chain, its tip is the peer's tip, further rounds change nothing; and [sim] ends with the peer's tip. *)
@@ -215,10 +215,27 @@ Theorem C11_sync_fork_catches_up : forall cfg genesis_addr team_key gh peer n0 s
        (forall b, In b (main_chain peer) -> get_block (sy_node s') (b_hash b) = Some b) /\
        top (sy_node s') = top peer /\ sy_buf s' = [] /\
        srounds cfg genesis_addr team_key peer now (S k) s = s') /\
+    (forall m s', (bound <= m)%nat -> prounds cfg genesis_addr team_key peer now m s s' ->
+       sy_node s' = apply_ext cfg genesis_addr n0 theirs /\
+       (forall b, In b (main_chain peer) -> get_block (sy_node s') (b_hash b) = Some b) /\
+       top (sy_node s') = top peer /\ sy_buf s' = []) /\
     (forall fuel, (bound <= fuel)%nat ->
        top (sy_node (fst (sim cfg genesis_addr team_key fuel peer s [] now))) = top peer).
 Proof. exact sync_fork_catches_up. Qed.
 Print Assumptions C11_sync_fork_catches_up.
+
+(* the schedule of the theorem above in terms of the events of the synchronisation machine: one round is the event
+   sequence  STATS(peer's tip) - Synchronize iteration - one BLOCK packet per block the peer answers with - post-processor
+   steps until the buffer is empty *)
+Theorem C11_sync_round_events : forall cfg genesis_addr team_key peer now s,
+  let s0 := recv_stats s (top_h peer) (top_cd peer) in
+  let arr := map (fun b => (b, now)) (flat_map (serve cfg peer) (snd (tick cfg s0))) in
+  sround cfg genesis_addr team_key peer now s =
+  steps cfg genesis_addr team_key s
+    (EvStats (top_h peer) (top_cd peer) :: EvTick :: map (fun bn => EvBlock (fst bn) (snd bn)) arr ++
+     repeat EvPost (length (sy_buf (recv_all cfg team_key (fst (tick cfg s0)) arr)))).
+Proof. exact sround_events. Qed.
+Print Assumptions C11_sync_round_events.
 
 (* the executable form of the acceptance premise *)
 Theorem C11_acc_chain_decidable : forall cfg genesis_addr bs n,
